@@ -24,7 +24,7 @@ def _plus(v, c):
 def template(rng, name):
     """-> (kind, source) ; the entry procedure is called `name`."""
     k = rng.choice(["shift", "shift", "guard", "guard", "callee", "callee", "alloc", "window", "divmod",
-                    "alias", "bounds", "twodim", "winarg", "assertuse", "sizearg", "sizearg"])
+                    "alias", "alias", "bounds", "twodim", "winarg", "assertuse", "sizearg", "sizearg"])
     A, B, C, D = _o(rng, 0, 3), _o(rng, 0, 3), _o(rng), _o(rng)
     if k == "shift":
         lo, hi = _o(rng, 0, 2), _o(rng, -1, 3)
@@ -76,13 +76,20 @@ def template(rng, name):
                f"    for i in seq(0, n):\n"
                f"        y[i] = x[{e}]\n")
     elif k == "alias":
-        a1 = rng.choice(["x[0:n]", "x[n:2 * n]", "y[0:n]"])
-        a2 = rng.choice(["x[0:n]", "x[n:2 * n]", "y[0:n]", "y[1:n + 1]"])
+        # the two arguments are the buffers themselves, windows of them, or windows of windows (w = x[..]; v = w[..]),
+        # optionally below a loop / branch: the same root buffer must never reach two arguments
+        pre = rng.choice(["", "", "w = x[0:2 * n]\n    v = w[0:n]\n    ", "w = x[0:2 * n]\n    v = w[n:2 * n]\n    u = v[0:n]\n    ",
+                          "w = y[0:n]\n    v = w[0:n]\n    "])
+        cands = ["x[0:n]", "x[n:2 * n]", "y[0:n]"]
+        if "w =" in pre:
+            cands += ["w[0:n]", "v[0:n]", "v"] + (["u[0:n]", "u"] if "u =" in pre else [])
+        a1 = rng.choice(cands)
+        a2 = rng.choice(cands + ["y[1:n + 1]"])
         src = (f"@proc\ndef add_{name}(m: size, d: [f32][m], s: [f32][m]):\n"
                f"    for j in seq(0, m):\n"
                f"        d[j] += s[j]\n\n"
-               f"@proc\ndef {name}(n: size, x: f32[2 * n], y: f32[{_plus('n', A)}]):\n"
-               f"    add_{name}(n, {a1}, {a2})\n")
+               f"@proc\ndef {name}(n: size, x: f32[2 * n], y: f32[{_plus('n', max(A, 1))}]):\n"
+               f"    {pre}add_{name}(n, {a1}, {a2})\n")
     elif k == "bounds":
         need = _o(rng, 0, 4)
         src = (f"@proc\ndef {name}(n: size, x: f32[n]):\n"
